@@ -22,7 +22,9 @@ RULE = ('one case = 1..4 datasets + a skip list. Each dataset draws its sensors 
         'Enumerated: for each of the 12 parts, every presence pattern of that part over 2 and 3 inputs (all other parts present). '
         'A malformed stream adds entries that refer to an identifier their own input does not define (expected KeyError). '
         'lib cases call merge_remap on objects; tool cases write real directories, run merge_kaptures(keep_sensor_ids=False) and read '
-        'the output files back. Non-trivial = at least two inputs with sensors and one non-skipped part present in some but not all '
+        'the output files back; every second tool case first fills the SAME output directory with an earlier merge_kaptures run of '
+        'other datasets (no skip) and then merges with force and a skip list naming parts that the old output holds: the result is '
+        'judged against the second merge alone (skipped parts absent, nothing left from the old output). Non-trivial = at least two inputs with sensors and one non-skipped part present in some but not all '
         'inputs or in two inputs; distinct = distinct case content.')
 TRUSTED = ['tool cases: kapture.io.csv writers/readers are used to build the inputs, to learn what the tool loads from them '
            '(kapture_from_dir with the same skip list) and to read the output files (per-file readers, no sensor filtering)',
@@ -156,7 +158,19 @@ def gen_cases(rng, tier):
     for i in range(n_lib):
         cases.append(_gen_case(rng, 'lib', dangling=(i % 12 == 11)))
     for i in range(n_tool):
-        cases.append(_gen_case(rng, 'tool'))
+        c = _gen_case(rng, 'tool')
+        if i % 2 == 1:
+            # history: the output directory already holds the result of an earlier merge of OTHER datasets (no skip);
+            # the judged merge then runs with force and a skip list naming parts that the old output has
+            pctr = _Ctr()
+            pctr.n = 5000
+            prior = [_gen_dataset(rng, j, pctr, 'tool') for j in range(rng.choice([1, 2, 3]))]
+            had = [p for p in SKIPPABLE if any(x[p] for x in prior)]
+            if had:
+                extra = rng.sample(had, rng.randint(1, min(3, len(had))))
+                c['skip'] = [p for p in SKIPPABLE if p in c['skip'] or p in extra]
+            c['prior'] = prior
+        cases.append(c)
     return cases
 
 
@@ -323,6 +337,17 @@ def _run_tool(case, ctx):
     loaded = [_flat(kcsv.kapture_from_dir(r, skip_list=sl)) for r in roots]
     res = {'inputs': loaded}
     out = os.path.join(base, 'out')
+    if case.get('prior'):
+        proots = []
+        for i, x in enumerate(case['prior']):
+            r = os.path.join(base, f'prior{i}')
+            kcsv.kapture_to_dir(r, _build(x))
+            proots.append(r)
+        try:
+            kapture_merge.merge_kaptures(proots, out, keep_sensor_ids=False, skip=[], force=True)
+        except Exception as e:
+            res['prior_exc'] = f'{type(e).__name__}: {e}'[:120]
+        res['prior_out'] = sorted(p for p, v in _flat(_read_dir(out)).items() if v) if os.path.isdir(out) else []
     try:
         kapture_merge.merge_kaptures(roots, out, keep_sensor_ids=False, skip=list(case['skip']), force=True)
         res['out'] = _flat(_read_dir(out))
@@ -428,7 +453,7 @@ def oracle(case, obs):
         got = out[part]
         if part in skip:
             if not _empty(got):
-                return f'{part}: present in the output although skipped'
+                return f'{part}: present in the merged dataset although skipped (entries that no input of this merge has)'
             continue
         exp = []
         for i, x in enumerate(inputs):
@@ -508,6 +533,8 @@ def encode(case, obs):
 # ------------------------------------------------------------------------------------------ evidence
 def nontrivial(case, obs):
     ins = obs['inputs']
+    if case.get('prior') and any(p in case['skip'] for p in (obs.get('prior_out') or [])):
+        return True          # a skipped part was in the output directory before the merge
     if sum(1 for x in ins if x['sensors']) < 2:
         return False
     for part in PARTS[1:]:
@@ -527,11 +554,12 @@ def classify(case, obs):
         if any(pres) and not pres[0]:
             gaps += 1                     # the shape that exposed the defect: missing in the first input, present later
     out = 'raise' if 'exc' in obs else 'ok'
-    return f'{case["mode"]}/n={len(ins)}/skip={min(len(case["skip"]), 3)}/missing-before-present={min(gaps, 3)}/{out}'
+    mode = case['mode'] + ('+old-output' if case.get('prior') else '')
+    return f'{mode}/n={len(ins)}/skip={min(len(case["skip"]), 3)}/missing-before-present={min(gaps, 3)}/{out}'
 
 
 def describe(case, obs):
-    return {'mode': case['mode'], 'skip': case['skip'],
+    return {'mode': case['mode'], 'skip': case['skip'], 'output_directory_held_before': obs.get('prior_out'),
             'inputs': [{p: (None if x[p] is None else len(x[p])) for p in PARTS if x[p] is not None} for x in case['inputs']],
             'observed': obs.get('exc') or {p: len(v) for p, v in obs['out'].items() if v},
             'new_sensor_ids': None if 'exc' in obs else [e[0] for e in (obs['out']['sensors'] or [])]}
@@ -539,6 +567,26 @@ def describe(case, obs):
 
 def shrink(case):
     ins = case['inputs']
+    if case.get('prior'):
+        c = copy.deepcopy(case)
+        del c['prior']
+        yield c
+        if len(case['prior']) > 1:
+            for i in range(len(case['prior'])):
+                c = copy.deepcopy(case)
+                del c['prior'][i]
+                yield c
+        for i, x in enumerate(case['prior']):
+            for part in PARTS[1:]:
+                if x[part] is not None:
+                    c = copy.deepcopy(case)
+                    c['prior'][i][part] = None
+                    yield c
+    for s_ in case['skip']:
+        if len(case['skip']) > 1:
+            c = copy.deepcopy(case)
+            c['skip'] = [y for y in case['skip'] if y != s_]
+            yield c
     if len(ins) > 1:
         for i in range(len(ins)):
             c = copy.deepcopy(case)
